@@ -73,7 +73,7 @@ Judge(e) ==
                             \cup (IF Bag(obs.refs) # Bag(exp.pkg.refs) THEN {<<"M11", name, "refs">>} ELSE {})
                             \cup (IF Bag(HfRels(obs)) # Bag(HfRels(exp.pkg)) THEN {<<"M11", name, "rels">>} ELSE {})
                             \cup (IF HfParts(obs) # HfParts(exp.pkg) THEN {<<"M11", name, "parts">>} ELSE {}))
-                 \cup (IF e.lazy \/ e.ret # "ok" \/ opn \in HfOps \/ (opn = "Reopen" /\ e.op.via = "word") THEN {}
+                 \cup (IF e.lazy \/ e.ret # "ok" \/ opn \in HfOps \/ (opn = "Reopen" /\ e.op.via \in {"word", "wordabs", "worddot"}) THEN {}
                        ELSE (IF Bag(obs.refs) # Bag(exp.pkg.refs) THEN {<<"M11", name, "refs">>} ELSE {})
                             \cup (IF Bag(HfRels(obs)) # Bag(HfRels(exp.pkg)) THEN {<<"M11", name, "rels">>} ELSE {})
                             \cup (IF obs.evenOdd # exp.pkg.evenOdd THEN {<<"M11", name, "evenOdd">>} ELSE {})))
